@@ -520,3 +520,16 @@ Theorem C05_nocopy_deform_contents :
                      (mread m0 ax) (mread m0 ad)).
 Proof. exact mem_nocopy_deform. Qed.
 Print Assumptions C05_nocopy_deform_contents.
+
+(* Re-binding an identifier (remove it from EXTERNAL_LUTS, register it again
+   with another file): the identifier then resolves to the NEW file; together
+   with C05_calls_never_matter (histories with OUnregister) a call by
+   identifier interpolates the table CURRENTLY registered. *)
+Theorem C05_rebind_resolves_new :
+  forall (w : world) (i p q : name) (w1 w2 : world),
+    zlookup i (w_files w) = None -> zlookup i (w_internal w) = None ->
+    register_lut w p (Some i) = (w1, Ok tt) ->
+    register_lut (unregister w1 i) q (Some i) = (w2, Ok tt) ->
+    get_lut_path w2 i = Ok q.
+Proof. exact rebind_resolves_new. Qed.
+Print Assumptions C05_rebind_resolves_new.
